@@ -78,3 +78,11 @@ add('C02', 'differential property-based testing in both directions (Hypothesis +
     'encoding; 13 kinds of reference-made signatures must verify under PGPy detached and inside reference-built keys/messages.',
     'Trusted: refpgp.sig/keys (self-tested on GnuPG-made fixtures), cryptography primitives, hashlib. RIPEMD-160 only where this cryptography build offers it.',
     'DESIGN.md 4/C02')
+add('C05', 'differential property-based testing with a reference signer: covering enumeration of subpacket type x critical x body class x length encoding and of every flag/boolean octet value, Hypothesis over subpacket lists, and bit-flip fault injection over the hashed region',
+    'Reference-made document and certification signatures (RSA/ECDSA/EdDSA) carrying every subpacket type 0..127 (critical or not, each legal length encoding incl. non-minimal, well-formed '
+    'bodies with unknown flag bits, multi-octet flags, non-0/1 booleans, UTF-8 and non-UTF-8 text, unknown types) and random lists of up to 8 of them: PGPy must accept the named classes, '
+    'hash exactly the reference hash input, verify (also a copy, also after key copy/export/import), re-export the hashed area unchanged, and reject every sampled/exhaustive single-bit flip '
+    'of the hashed region.',
+    'Trusted: refpgp signer/verifier. Parse rejection is an outcome except for the classes the statement names. Flips that make PGPy loop over a gigabyte-scale declared length are abandoned by a '
+    'watchdog and counted.',
+    'DESIGN.md 4/C05')
